@@ -2,8 +2,9 @@
 (whad.common.stack: source / instance / alias, Layer / ContextualLayer), runs operation
 sequences on the real framework and reports canonical observations.
 
-stdin:  {"cases": [ {"tree": T, "ops": [op, ...]}, ... ]}
-  T  = {"id": class id, "base": id of the generated class it derives from | None, "a": alias, "x": instantiable?, "h": [[hid, [[src, tag, contextual, form], ...]], ...], "s": [T, ...]}
+stdin:  {"cases": [ {"pool": [C, ...], "setup": [["add"|"remove", class id, sub-layer class id], ...], "root": class id, "ops": [op, ...]}, ... ]}
+  C  = {"id": class id, "base": id of the generated class it derives from | None, "a": alias, "x": instantiable?,
+        "own_layers": declares LAYERS = {} in its body?, "h": [[hid, [[src, tag, contextual, form], ...]], ...]}
        decorators are listed in APPLICATION order (innermost first); form = "source" | "instance"
   op = ["inst", path, alias] | ["destroy", path, name] | ["send", path, dst, tag] | ["set", path, v]
        | ["save"] | ["load"] | ["restart"]   (path = list of names from the root, names/aliases/tags are strings)
@@ -22,12 +23,12 @@ from whad.common.stack import Layer, ContextualLayer, alias, source, instance
 
 
 class Run:
-    def __init__(self, tree):
+    def __init__(self, case):
         self.registry = []      # objects in creation order
         self.deliveries = []
         self.nclass = 0
-        self.tree = tree
-        self.root_cls = self.build(tree)
+        self.case = case
+        self.root_cls = self.build(case)
 
     def uid(self, obj):
         for i, o in enumerate(self.registry):
@@ -42,16 +43,11 @@ class Run:
         handler.__name__ = "h%03d" % hid
         return handler
 
-    def build(self, tree):
-        """one class per node; a node may name another node as its base class (the class objects
-        are created in dependency order, then linked with add() following the tree)"""
+    def build(self, case):
+        """one class object per pool entry (created in dependency order: a class may derive from
+        another generated class), then the set-up program: the REAL cls.add(sub) / cls.remove(sub)"""
         run = self
-        nodes = {}
-        def collect(t):
-            nodes[t["id"]] = t
-            for sub in t["s"]:
-                collect(sub)
-        collect(tree)
+        nodes = {t["id"]: t for t in case["pool"]}
         built = {}
         def mk(nid):
             if nid in built:
@@ -73,18 +69,20 @@ class Run:
             def configure(self, options):
                 run.registry.append(self)
             attrs["configure"] = configure
-            attrs["LAYERS"] = {}               # own sub-layer dictionary (not the base class's)
+            if t.get("own_layers"):
+                attrs["LAYERS"] = {}           # the class declares its own (empty) sub-layer dictionary
             self.nclass += 1
             cls = type("C%d_%s" % (self.nclass, t["a"]), (base,), attrs)
             built[nid] = alias(t["a"])(cls)
             return built[nid]
         for nid in nodes:
             mk(nid)
-        def link(t):
-            for sub in t["s"]:
-                built[t["id"]].add(link(sub))
-            return built[t["id"]]
-        return link(tree)
+        for kind, c, sub in case["setup"]:
+            if kind == "add":
+                built[c].add(built[sub])
+            else:
+                built[c].remove(built[sub])
+        return built[case["root"]]
 
 
 def resolve(root, path):
@@ -112,11 +110,14 @@ def canon_save(s):
 
 
 def do_case(case):
-    run = Run(case["tree"])
     events = []
     sink = io.StringIO()
     with contextlib.redirect_stdout(sink):
-        root = run.root_cls()
+        try:
+            run = Run(case)
+            root = run.root_cls()
+        except Exception as e:  # noqa  (e.g. RecursionError when a class ends up containing itself)
+            return [{"k": "init_exc", "cls": type(e).__name__}]
         events.append({"k": "init", "live": live(run, root)})
         saved = None
         for op in case["ops"]:
@@ -178,7 +179,7 @@ def do_case(case):
                 elif k == "restart":
                     # a new interpreter: the classes are defined again (no INSTCOUNT attribute), the
                     # live stack is gone, only the saved state survives; a fresh stack is built
-                    run.root_cls = run.build(run.tree)
+                    run.root_cls = run.build(run.case)
                     root = run.root_cls()
                     events.append({"k": "restart", "live": live(run, root)})
                 else:
